@@ -173,12 +173,20 @@ structure Mv (h h' : HalfLock.Sys) (t : Nat) (cmd : Option HalfLock.Cmd) (o : Ha
   pre : (phaseAt h t = .idle ∨ ∃ u, phaseAt h t = .rPre u) →
     ((∃ u, phaseAt h' t = .rPre u) ∨ ∃ q u, phaseAt h' t = .rHold q u) →
     HalfLock.preA (pcAt h' t) + 1 = HalfLock.preA (pcAt h t)
+  /-- with both reader slots idle, a writer's step keeps them idle and uses up one unit of `rem` -/
+  quiet : h.lock0 = 0 → h.lock1 = 0 → (Phase.crit (phaseAt h t) = true ∨ ∃ b, o = .mutexLock b) →
+    h'.lock0 = 0 ∧ h'.lock1 = 0 ∧
+      (Phase.crit (phaseAt h t) = true → HalfLock.rem (pcAt h' t) + 1 = HalfLock.rem (pcAt h t))
 
 theorem mv_step {ye : Nat} {h h' : HalfLock.Sys} {t : Nat} {o : HalfLock.Obs}
     (hinv : HalfLock.Inv h) (hns : NoScripts h) (hs : HalfLock.step ye h t = some (h', o)) :
     Mv h h' t none o := by
   refine ⟨HalfLock.inv_step _ _ _ _ _ hinv hs, ?_, HalfLock.step_len hs, ?_, HalfLock.step_eff hs, ?_,
-    fun hp hp' => HalfLock.step_preA hs hp hp'⟩
+    fun hp hp' => HalfLock.step_preA hs hp hp', ?_⟩
+  rotate_left 3
+  · intro h0 h1 hc
+    have := HalfLock.step_qrem hs h0 h1 (by simpa [phaseAt, ← crit_phase] using hc)
+    simpa [phaseAt, ← crit_phase] using this
   · apply HalfLock.step_noScripts hs
     · intro j th _ hj; exact hns j th hj
     · intro th hth; rw [hns t th hth]; simp
@@ -208,8 +216,18 @@ theorem mv_begin {ye : Nat} {h h' : HalfLock.Sys} {t : Nat} {o : HalfLock.Obs} {
       intro hp hp'
       have := HalfLock.step_preA hs (Or.inl (by simp [phaseAt, pcAt, hlt, hpc, HalfLock.Pc.phase])) hp'
       rw [this]; simp [pcAt, hlt, hth]
+    have hquiet : h.lock0 = 0 → h.lock1 = 0 → (Phase.crit (phaseAt h t) = true ∨ ∃ b, o = .mutexLock b) →
+        h'.lock0 = 0 ∧ h'.lock1 = 0 ∧
+          (Phase.crit (phaseAt h t) = true → HalfLock.rem (pcAt h' t) + 1 = HalfLock.rem (pcAt h t)) := by
+      intro h0 h1 hc
+      have hb : ∃ b, o = .mutexLock b := by
+        rcases hc with hc | hc
+        · rw [hidle] at hc; cases hc
+        · exact hc
+      obtain ⟨a, b, _⟩ := HalfLock.step_qrem hs h0 h1 (Or.inr hb)
+      exact ⟨a, b, fun hcr => by rw [hidle] at hcr; cases hcr⟩
     refine ⟨HalfLock.inv_step _ _ _ _ _ hinv0 hs, ?_, ?_, ?_,
-      ⟨e.data, e.live, e.freed, e.nextSnap, e.mutex, e.allocId, e.swapOld, e.loadData⟩, ?_, hpre⟩
+      ⟨e.data, e.live, e.freed, e.nextSnap, e.mutex, e.allocId, e.swapOld, e.loadData⟩, ?_, hpre, hquiet⟩
     · apply HalfLock.step_noScripts hs
       · intro j x hj hx
         simp only [List.getElem?_set, hj.symm, if_false] at hx
